@@ -1,12 +1,11 @@
 (* C18 — canonical form is valid, value-preserving and layout-independent.
    Statements only; each is closed by [exact] of a lemma proved elsewhere.
-   [T1] (specification level): all proved except the decoder round trip, which is proved for
-   everything but struct lists (C18_cparse_enc_partial; full statement: cparse_enc_statement).
+   [T1] (specification level): all proved, for all values.
    NOTE: the relation of C18_canon_unique is value_eqs (no list upgrade), not Equal's value_eq:
    a primitive list and the equivalent struct list are value_eq but have different canonical forms.
    [T2] (canon_m_correct_statement: the Go-faithful model computes canon o denote) is stated,
    proved for the null struct only, and otherwise covered by the correspondence run. *)
-From CV Require Import Value.ValueEq Value.CanonSpec Value.CanonProofs Value.CanonProofs2
+From CV Require Import Value.ValueEq Value.CanonSpec Value.CanonProofs Value.CanonProofs2 Value.CanonProofs3
                        Value.EqualM Value.CanonM Value.EqualProofs Value.CanonMProofs.
 Open Scope Z_scope.
 
@@ -26,14 +25,33 @@ Theorem C18_canon_norm : forall v, wfv v = true -> nocap (norm v) = true -> cano
 Proof. exact canon_norm. Qed.
 Print Assumptions C18_canon_norm.
 
-(* ... and the strict pre-order decoder returns exactly the representative (null, structs, void
-   lists, pointer lists, bit lists, primitive lists -- everything but struct lists; any
-   position, any continuation) *)
-Theorem C18_cparse_enc_partial : forall f v pos cur w body rest,
+(* ... the strict pre-order decoder inverts the layout for every normal-form value (null,
+   structs, all list kinds), at any position and before any continuation ... *)
+Theorem C18_cparse_enc : forall f v pos cur w body rest,
   skel v = true -> enc f v pos cur = COk (w, body) ->
   cparse f w pos cur (body ++ rest) = Some (v, rest).
 Proof. exact cparse_enc_partial. Qed.
-Print Assumptions C18_cparse_enc_partial.
+Print Assumptions C18_cparse_enc.
+
+(* ... hence, for EVERY well-formed capability-free value with in-range fields ([good]), the
+   canonical BYTES decode (strict pre-order decoder: contiguous, pre-order, zero padding) to
+   exactly the canonical representative ... *)
+Theorem C18_cdecode_canon : forall v bs, good v -> canon v = Some bs ->
+  cdecode (S (vdepth (norm v))) bs = Some (norm v).
+Proof. exact cdecode_canon. Qed.
+Print Assumptions C18_cdecode_canon.
+
+(* ... which is equal to the value (value preservation) ... *)
+Theorem C18_canon_decodes_equal : forall v bs, good v -> canon v = Some bs ->
+  exists v', cdecode (S (vdepth (norm v))) bs = Some v' /\ value_eqs v' v = true /\ value_eq v' v = true.
+Proof. exact canon_decodes_equal. Qed.
+Print Assumptions C18_canon_decodes_equal.
+
+(* ... and canonicalising what was read back returns the same bytes (idempotence) *)
+Theorem C18_canon_idempotent : forall v bs v', good v -> canon v = Some bs ->
+  cdecode (S (vdepth (norm v))) bs = Some v' -> canon v' = Some bs.
+Proof. exact canon_idempotent. Qed.
+Print Assumptions C18_canon_idempotent.
 
 (* the output is a single word-aligned segment (at least the root pointer) *)
 Theorem C18_canon_aligned : forall v bs, canon v = Some bs ->
